@@ -374,12 +374,32 @@ def replay_file(path: str) -> int:
 # --------------------------------------------------------------------------------
 # a whole check
 # --------------------------------------------------------------------------------
+def cleanup_orphans():
+    """Remove scratch directories left behind by worker processes that were killed."""
+    from .core import _scratch_root
+
+    root = Path(_scratch_root())
+    for d in list(root.glob("dsim-*")):
+        try:
+            pid = int(d.name.split("-")[1])
+            os.kill(pid, 0)
+        except (ValueError, IndexError):
+            continue
+        except ProcessLookupError:
+            import shutil
+
+            shutil.rmtree(d, ignore_errors=True)
+        except PermissionError:
+            continue
+
+
 def n_workers() -> int:
     return int(os.environ.get("VERIF_WORKERS", "0")) or min(16, os.cpu_count() or 1)
 
 
 def run_check(prop: str, machines: list[str], tier: str, seed: int, out=sys.stdout, runs_override=None, want_digests=False):
     t0 = time.time()
+    cleanup_orphans()
     mods = [machine_module(m) for m in machines]
     findings = load_known_findings()
     workers = n_workers()
@@ -474,6 +494,7 @@ def run_check(prop: str, machines: list[str], tier: str, seed: int, out=sys.stdo
         finally:
             killer.cancel()
     wall_runs = time.time() - t0
+    cleanup_orphans()
 
     # determinism mini self-test
     nondeterministic = []
